@@ -61,6 +61,7 @@ inline GenCfg profile_cfg(int profile, Rng& rng, bool faults) {
   if (rng.chance(1, 4)) { c.len_lo = 3; c.len_hi = 10; }
   else if (rng.chance(1, 4)) { c.len_lo = 30; c.len_hi = 60; }
   c.teardown = rng.chance(3, 4);
+  if (globals().deep) { c.len_lo *= 2; c.len_hi = c.len_hi * 5 / 2; }
   return c;
 }
 
